@@ -89,13 +89,12 @@ func genScriptCase(r *Rng, feat map[string]int) scriptCase {
 			desc = append(desc, "reserve-props=^x2_$")
 		}
 	}
-	if r.Chance(15) {
-		opts.MinifySyntax = true
-		desc = append(desc, "minify-syntax")
-	}
+	// (minify-syntax is not part of this property's configuration space; one interaction found
+	// with it is replayed from the fixed corpus)
+	r.Chance(15)
 	// `with` and sloppy function-in-block are exercised in separate programs, and `with` never
 	// together with keep-names (their interactions are recorded findings, replayed from the corpus)
-	g.noWith = r.Bool() || opts.KeepNames || opts.MinifyIdentifiers // with + minify: recorded finding (pinned nested names are not reserved)
+	g.noWith = r.Bool() || opts.KeepNames // (inside with, only names that do not pin a nested symbol are referenced: recorded findings)
 	g.noFnInBlock = !g.noWith
 	g.evalSibs = r.Chance(30)
 	sc.src, sc.top = g.script(r.Range(3, 7))
@@ -137,6 +136,15 @@ func fixedScriptCorpus() []scriptCase {
 		{kind: "script", scenario: "with-pinned-nested-name-captured-by-minified-name",
 			src:  progPrelude + globalsPrelude() + "(function y() {\n  with ({}) { y; }\n  try { throw 1; } catch (x3) { $p(\"r\", typeof y, \"yyyyyyyyyyyyyyyyyyyyyyyyyyyyyyyyyyyyyyyyyyyyyyyyyyyyyyyyyyyyyyyyyyyyyyyyyyyyyyyyyyyyyyyyyyyyyyyyyyyyyyyyyyyyyyyy\"); }\n})();\n",
 			opts: api.TransformOptions{Loader: api.LoaderJS, MinifyIdentifiers: true, LogLevel: api.LogLevelSilent}, optDesc: "minify-identifiers"},
+		{kind: "script", scenario: "with-pinned-nested-name-captured-by-numbered-name",
+			src:  progPrelude + globalsPrelude() + "(function f1() {\n  var e2 = \"outer\";\n  with ({}) {\n    (function (e) { $p(\"r\", e2, typeof e); })(\"param\");\n  }\n})();\n",
+			opts: api.TransformOptions{Loader: api.LoaderJS, Format: api.FormatIIFE, LogLevel: api.LogLevelSilent}, optDesc: "format=iife"},
+		{kind: "script", scenario: "var-in-with-merged-with-parameter-is-renamed",
+			src:  progPrelude + globalsPrelude() + "(function (x2) { with ({ x2: 1 }) { var x2 = 2; } $p(\"r\", x2); })(\"p\");\n",
+			opts: api.TransformOptions{Loader: api.LoaderJS, LogLevel: api.LogLevelSilent}, optDesc: "(defaults)"},
+		{kind: "script", scenario: "minify-syntax-drops-var-after-hoisted-block-function",
+			src:  progPrelude + globalsPrelude() + "{ function x1() {} }\n{ { var x1 = \"d18\"; } }\n$p(\"r\", typeof x1);\n",
+			opts: api.TransformOptions{Loader: api.LoaderJS, MinifySyntax: true, Format: api.FormatIIFE, LogLevel: api.LogLevelSilent}, optDesc: "minify-syntax format=iife"},
 		{kind: "script", scenario: "with-object-captures-minified-keep-names-helper",
 			src:  progPrelude + globalsPrelude() + "with ({ a: 1, b: 1, c: 1, d: 1, e: 1, f: 1, g: 1, h: 1, i: 1, j: 1, k: 1, l: 1, m: 1, n: 1, o: 1, p: 1, q: 1, r: 1, s: 1, t: 1, u: 1, v: 1, w: 1, x: 1, y: 1, z: 1 }) {\n  class K {}\n  $p(\"r\", typeof K);\n}\n",
 			opts: api.TransformOptions{Loader: api.LoaderJS, KeepNames: true, MinifyIdentifiers: true, LogLevel: api.LogLevelSilent}, optDesc: "keep-names minify-identifiers"},
